@@ -246,5 +246,85 @@ class Overflow(S.DispatchStream):
         return "overflow literal / %s" % ("echoed" if "Infinity" in (obs["text"] or "") else "not echoed")
 
 
+class Http(Main):
+    """the same bodies through SimpleJSONRPCRequestHandler.do_POST (fake rfile / wfile, no socket):
+    status line and body of the HTTP answer"""
+    name = "http"
+    case_type = "dcase * Z"
+    check_fn = "http_check"
+
+    def gen(self, tier, rng):
+        cases = Main.gen(self, tier, rng)
+        cases = [c for c in cases if _utf8_ok(c["body"])]
+        return rng.sample(cases, 700 if tier == "quick" else 6000)
+
+    def run_impl(self, case):
+        import io
+        from jsonrpclib.SimpleJSONRPCServer import SimpleJSONRPCRequestHandler
+        rt, cached = self.runtime(case)
+        try:
+            raw = case["body"].encode("utf-8")
+            h = object.__new__(SimpleJSONRPCRequestHandler)
+            rt.disp.logRequests = False
+            h.server = rt.disp
+            h.headers = {"content-length": str(len(raw))}
+            h.rfile = io.BytesIO(raw)
+            h.wfile = io.BytesIO()
+            h.path = "/"
+            h.request_version = "HTTP/1.1"
+            h.requestline = "POST / HTTP/1.1"
+            h.client_address = ("127.0.0.1", 0)
+            h.close_connection = True
+            if rt.dm is not None:
+                h._dispatch = rt.dm
+            start = len(rt.events)
+            raised = None
+            try:
+                h.do_POST()
+            except Exception as ex:     # noqa
+                raised = ex
+            out = h.wfile.getvalue()
+            head, _, payload = out.partition(b"\r\n\r\n")
+            lines = head.decode("latin-1").split("\r\n")
+            status = int(lines[0].split()[1]) if lines and len(lines[0].split()) > 1 else -1
+            hdrs = {ln.split(":", 1)[0].strip().lower(): ln.split(":", 1)[1].strip() for ln in lines[1:] if ":" in ln}
+            with rt.lock:
+                evs = rt.events[start:]
+            obs = {"raised": raised, "text": payload.decode("utf-8"), "status": status, "headers": hdrs,
+                   "log": [e for (m, e) in evs if m], "drained": [e for (m, e) in evs if not m], "drained_ok": True,
+                   "content_length_ok": hdrs.get("content-length") == str(len(payload))}
+            obs["po"] = K.parse_outcome(self.J, case["body"], rt.config)
+            return obs
+        finally:
+            if not cached:
+                rt.close()
+
+    def oracle(self, case, obs):
+        if obs["raised"] is not None:
+            return ("C02:do_POST-raised", "do_POST raised %s" % type(obs["raised"]).__name__)
+        if obs["status"] != 200:
+            return ("C02:http-status-not-200", "do_POST answered %s: %r" % (obs["status"], obs["text"][:160]))
+        if not obs["content_length_ok"]:
+            return ("C02:http-content-length", "Content-length %r for a body of other length" % obs["headers"].get("content-length"))
+        return Main.oracle(self, case, obs)
+
+    def encode(self, case, obs):
+        e = Main.encode(self, case, obs)
+        return None if e is None else "(%s, %d)" % (e, obs["status"])
+
+    def describe(self, case, obs):
+        d = Main.describe(self, case, obs)
+        d["http_status"] = obs["status"]
+        return d
+
+
+def _utf8_ok(s):
+    try:
+        s.encode("utf-8")
+        return True
+    except UnicodeEncodeError:
+        return False
+
+
 def streams():
-    return [Main(), Overflow()]
+    return [Main(), Http(), Overflow()]
